@@ -277,6 +277,18 @@ impl DiskDevices {
             }
         }
 
+        #[cfg(fclones_verif)]
+        {
+            let mount_points = result.mount_points.clone();
+            for (mount_point, index) in mount_points {
+                if let Some(kind) = crate::verif::pinned_disk_kind_at(&mount_point) {
+                    let d = &mut result.devices[index];
+                    d.disk_kind = kind;
+                    d.parallelism = Self::get_parallelism(&d.name, kind, pool_sizes);
+                }
+            }
+        }
+
         result
     }
 
